@@ -33,7 +33,7 @@ IGNORED = {
     "len", "sorted", "list", "max", "min", "sum", "isinstance", "itertools.chain.from_iterable", "log", "np.full", "np.zeros", "str", "int", "frozenset", "set",
     "collections.defaultdict", "new:TreeNode", "new:Tree", "rustworkx.PyDiGraph", "new:PostOrderNodeUpdater", "new:PreOrderNodeRelabeller",
     "new:GraphToCladesVisitor", "new:GraphToNewickVisitor", "np.array_equal", "map", "print", "dict", ".__new__", "compute_log_S",
-    "rustworkx.dfs_search", ".format", "reversed",
+    "rustworkx.dfs_search", ".format", "reversed", "any", "all",
 } | {"." + r for r in REFRESH}
 
 # methods that only compute a value
@@ -41,7 +41,7 @@ QUERY_METHODS = {
     "graph@getter", "data@getter", "data_log_likelihood@getter", "labels@getter", "nodes@getter", "get_number_of_nodes", "node_data@getter",
     "outliers@getter", "roots@getter", "get_children", "get_number_of_children", "get_descendants", "get_number_of_descendants", "get_parent",
     "get_data", "get_data_len", "get_subtree_data_len", "multiplicity@getter", "node_last_added_to@getter", "root_node_name@getter",
-    "outlier_node_name@getter", "to_newick_string", "get_clades", "to_dict", "_clades",
+    "outlier_node_name@getter", "to_newick_string", "get_clades", "to_dict", "_clades", "_is_data_point_in_tree",
 }
 SKIP = {"phyclone.tree.tree_node.TreeNode.copy"}
 # the refresh machinery itself: compared with its own callees visible
